@@ -108,6 +108,10 @@ def build_and_audit(prop: str, mod, tier: str):
     info["gen_consts"] = out.strip().split("\n")[-1] if out.strip() else ""
     if rc != 0:
         broken.append({"kind": "regeneration", "what": "tools/gen_consts.py crashed", "detail": out[-2000:]})
+    elif not info["gen_consts"].startswith("gen_consts:"):
+        # the generator ends with "gen_consts: rewrote …/unchanged" once every generated file has been written; anything else means it
+        # stopped before the write loop (exit status 0 notwithstanding) and the constants on disk are not those of the current source
+        broken.append({"kind": "regeneration", "what": "tools/gen_consts.py ended without writing the generated files", "detail": out[-2000:]})
     mods = list(mod.LEAN_MODULES)
     extra_pref = list(getattr(mod, "EXTRA_THEOREM_PREFIXES", ()))
     try:  # tie theorems (model = code translated by tools/py2lean.py) guarding this property: tools/tie_modules.json
